@@ -72,6 +72,7 @@ JP Op::toJson(bool withFault) const {
         j->set("loops_rad", a);
     }
     if (!str.empty() || fn == FN_stringToH3) j->set("str", str);
+    if (share) j->set("share", share);
     if (withFault && fault.kind != F_NONE) j->set("fault", fault.toJson());
     return j;
 }
@@ -100,6 +101,7 @@ Op Op::fromJson(const JVal &j) {
             o.loops.push_back(loop);
         }
     o.str = j.gets("str");
+    o.share = (int)j.geti("share", 0);
     if (JP f = j.get("fault")) o.fault = FaultPlan::fromJson(*f);
     return o;
 }
@@ -550,6 +552,10 @@ Result execOp(const H3Api &api, const Op &op, const ExecOpts &opts) {
     std::vector<GuardBuf *> loopBufs;
     GuardBuf holesBuf;
     auto buildPoly = [&]() {
+        if (opts.shared && opts.shared->poly) {
+            c.poly = opts.shared->poly;
+            return;
+        }
         memset(&gp, 0, sizeof gp);
         for (size_t i = 0; i < op.loops.size(); i++) {
             GuardBuf *b = new GuardBuf(op.loops[i].size() * sizeof(LatLng) + 8);
@@ -574,6 +580,10 @@ Result execOp(const H3Api &api, const Op &op, const ExecOpts &opts) {
         c.poly = &gp;
     };
     auto setInCells = [&]() {
+        if (opts.shared && opts.shared->cells) {
+            c.in0 = opts.shared->cells;
+            return;
+        }
         IN0.init(op.cells.size() * sizeof(H3Index) + 8);
         if (!op.cells.empty())
             memcpy(IN0.p(), op.cells.data(), op.cells.size() * sizeof(H3Index));
@@ -667,7 +677,7 @@ Result execOp(const H3Api &api, const Op &op, const ExecOpts &opts) {
             c.i0 = clampInt(argI(op, 0));
             c.u0 = (uint32_t)argI(op, 1);
             int64_t sz = 0;
-            if (REF.maxPolygonToCellsSize(&gp, c.i0, c.u0, &sz) != E_SUCCESS ||
+            if (REF.maxPolygonToCellsSize(c.poly, c.i0, c.u0, &sz) != E_SUCCESS ||
                 sz < 1)
                 sz = 1;
             if (sz > MAX_OUT_ELEMS) {
@@ -892,6 +902,18 @@ Result execOp(const H3Api &api, const Op &op, const ExecOpts &opts) {
         if (c.in0 && !op.cells.empty() &&
             memcmp(c.in0, op.cells.data(), op.cells.size() * 8) != 0)
             R.guardsOk = false;
+        if (opts.shared && opts.shared->poly) {
+            const GeoPolygon *sp = opts.shared->poly;
+            if (!op.loops.empty() && !op.loops[0].empty() &&
+                memcmp(sp->geoloop.verts, op.loops[0].data(),
+                       op.loops[0].size() * sizeof(LatLng)) != 0)
+                R.guardsOk = false;
+            for (size_t i = 1; i < op.loops.size(); i++)
+                if (!op.loops[i].empty() &&
+                    memcmp(sp->holes[i - 1].verts, op.loops[i].data(),
+                           op.loops[i].size() * sizeof(LatLng)) != 0)
+                    R.guardsOk = false;
+        }
         for (size_t i = 0; i < loopBufs.size(); i++)
             if (!op.loops[i].empty() &&
                 memcmp(loopBufs[i]->p(), op.loops[i].data(),
